@@ -63,6 +63,8 @@ type wsSlot struct {
 	pEdit  int // value of the "ws-edit" parameter the caller last put into the protected / unprotected map (0: none)
 	uEdit  int
 	dec    bool // the object came out of a decoder (it retains raw header bytes, which an edit must discard)
+	tmpl   bool // constructed in this history and never decoded into
+	shared bool // its header maps are shared with a value copy (in-place edits would legitimately show in both)
 	pure   bool // decoded and never edited since (only verified / encoded): a received message
 	tamper bool // signature 0 currently has a flipped bit
 	pre    bool // validity before the tamper
@@ -96,6 +98,7 @@ func checkWorkspaceFor(c wsCase, only string) error {
 	var slots []*wsSlot
 	var buffers [][]byte
 	edits := 0
+	opaque := map[int][]cose.Signer{} // per spec: signers over opaque crypto.Signer wrappers, one object per key, shared by all objects made from the spec
 	pick := func(i int) *wsSlot {
 		if len(slots) == 0 {
 			return nil
@@ -142,8 +145,49 @@ func checkWorkspaceFor(c wsCase, only string) error {
 			if err != nil {
 				return fmt.Errorf("harness: %v", err)
 			}
-			slots = append(slots, &wsSlot{m: constructLib(&spec), spec: &spec, ss: ss, vs: vs})
+			si := op.A % len(c.Specs)
+			if si%2 == 1 {
+				if opaque[si] == nil {
+					for _, sg := range spec.Sigs {
+						o, err := cose.NewSigner(cose.Algorithm(sg.Key.Alg), opaqueSigner{sg.Key.Private()})
+						if err != nil {
+							return fmt.Errorf("harness: %v", err)
+						}
+						opaque[si] = append(opaque[si], o)
+					}
+				}
+				ss = opaque[si]
+				stats.Class("ws/opaque-signers")
+			}
+			slots = append(slots, &wsSlot{m: constructLib(&spec), spec: &spec, ss: ss, vs: vs, tmpl: true})
 			stats.Class("ws/new")
+		case "copy-template":
+			// an unsigned message used as a template: value copies, each signed on its own
+			s := pick(op.A)
+			if s == nil || s.signed || !s.tmpl || len(slots) >= 8 {
+				continue
+			}
+			cp := *s
+			cp.m = &libMsg{kind: s.m.kind}
+			switch {
+			case s.m.s1 != nil:
+				v := *s.m.s1
+				cp.m.s1 = &v
+			case s.m.u1 != nil:
+				v := *s.m.u1
+				cp.m.u1 = &v
+			default:
+				v := *s.m.sm
+				v.Signatures = nil
+				for _, sg := range s.m.sm.Signatures {
+					w := *sg
+					v.Signatures = append(v.Signatures, &w)
+				}
+				cp.m.sm = &v
+			}
+			s.shared, cp.shared = true, true
+			slots = append(slots, &cp)
+			stats.Class("ws/copy-template")
 		case "sign":
 			s := pick(op.A)
 			if s == nil || s.signed {
@@ -293,7 +337,7 @@ func checkWorkspaceFor(c wsCase, only string) error {
 				}
 			}
 			dst.spec, dst.ss, dst.vs = src.spec, src.ss, src.vs
-			dst.dec, dst.pure, dst.pEdit, dst.uEdit = true, true, 0, 0
+			dst.dec, dst.pure, dst.pEdit, dst.uEdit, dst.tmpl, dst.shared = true, true, 0, 0, false, false
 			dst.signed, dst.valid, dst.from, dst.tamper, dst.pre = true, src.lastOK, append([]byte{}, src.last...), src.lastT, src.lastP
 			dst.last = nil
 			stats.Class("ws/decode-into-used-variable")
@@ -305,7 +349,7 @@ func checkWorkspaceFor(c wsCase, only string) error {
 			edits++
 			s.pure = false
 			h := s.m.headers()
-			inPlace := op.B%2 == 1 // the caller writes into the map it was handed instead of installing a new one
+			inPlace := op.B%2 == 1 && !s.shared // the caller writes into the map it was handed instead of installing a new one
 			var others []string
 			for _, o := range slots {
 				others = append(others, bridge.DumpValue(o.m.s1)+bridge.DumpValue(o.m.u1)+bridge.DumpValue(o.m.sm))
@@ -488,13 +532,17 @@ func genWorkspace(t *rapid.T) wsCase {
 		}
 		c.Specs = append(c.Specs, spec)
 	}
+	if rapid.IntRange(0, 3).Draw(t, "template-prelude") == 0 {
+		// a template and two copies, each signed on its own
+		c.Ops = append(c.Ops, wsOp{Op: "new"}, wsOp{Op: "copy-template"}, wsOp{Op: "copy-template"}, wsOp{Op: "sign", A: 1}, wsOp{Op: "sign", A: 2})
+	}
 	c.Ops = append(c.Ops, wsOp{Op: "new"}, wsOp{Op: "sign"})
 	if len(c.Specs) >= 2 && rapid.IntRange(0, 2).Draw(t, "prelude") == 0 {
 		// two signed and encoded objects, each decoded once: objects 2 and 3 are decoded siblings
 		c.Ops = append(c.Ops, wsOp{Op: "encode"}, wsOp{Op: "new", A: 1}, wsOp{Op: "sign", A: 1}, wsOp{Op: "encode", A: 1}, wsOp{Op: "decode", A: 0}, wsOp{Op: "decode", A: 1})
 	}
 	names := []string{"new", "sign", "sign", "encode", "encode", "decode", "decode", "decode-into", "decode-into", "edit-protected", "edit-payload", "edit-unprotected",
-		"tamper", "tamper", "re-sign", "scribble", "churn", "encode", "decode", "copy-redecode", "copy-redecode"}
+		"tamper", "tamper", "re-sign", "scribble", "churn", "encode", "decode", "copy-redecode", "copy-redecode", "copy-template", "copy-template"}
 	k := rapid.IntRange(4, 24).Draw(t, "nops")
 	for i := 0; i < k; i++ {
 		c.Ops = append(c.Ops, wsOp{Op: rapid.SampledFrom(names).Draw(t, "op"), A: rapid.IntRange(0, 7).Draw(t, "a"), B: rapid.IntRange(0, 7).Draw(t, "b")})
